@@ -4,7 +4,12 @@
    spec_ok = no panic, and whatever was written is packable, has the query's ID and question
    and the QR bit, BADVERS (16) exactly for an EDNS version other than 0, and no option other
    than the client-subnet echo (unknown options are ignored); over UDP the packed reply is no longer
-   than max(512, advertised size), no record is added, and TC is set whenever records were dropped. *)
+   than max(512, advertised size), no record is added, and TC is set whenever records were dropped.
+   History cases (class ..+cache, ..+cache+badvers of the harness) have the same format: their
+   queries were asked one after the other, behind a warm-up that is not part of the case, through
+   handlers whose response cache is enabled.  The serve model has no cache, and both relations
+   are evaluated per query exactly as for the other cases: a reply served from the cache must be
+   the reply the cache-free model computes, and BADVERS is owed whatever the cache holds. *)
 From DnsV Require Export Base.Bytes Model.Store Model.LookupV1 Model.LookupV2 Model.Serve Spec.Answer Spec.Rows Spec.KeysV2 Run.Core.
 Open Scope N_scope.
 
